@@ -136,8 +136,11 @@ func runTotal(s string, tag string, long bool) totalEvent {
 		if !long {
 			// also as one constraint among valid ones
 			timed("vers-mixed:"+sc, func() {
-				if c := vc("vers:"+sc+"/>="+versProbeText[sc]+"|"+s, versProbeText[sc]); c > ev.VersR[sc] {
-					ev.VersR[sc] = c
+				// after a lower bound that already contains the probe, and after an exact match of the probe
+				for _, lead := range []string{">=", "="} {
+					if c := vc("vers:"+sc+"/"+lead+versProbeText[sc]+"|"+s, versProbeText[sc]); c > ev.VersR[sc] {
+						ev.VersR[sc] = c
+					}
 				}
 			})
 		}
